@@ -337,12 +337,19 @@ def replay_translate_halo(chk, rs, c, variants):
         chk.case((_cfg_key(c), prof_kind, prec, "halo"))
         _, pm, fm = rs.solve3(q, kw)
         _, p0, f0 = rs.solve3(q, kw, meas_pt=(0.0, 0.0))
-        # tower moved by (dj, di): fm[j, i] = f0[j - dj, i - di] where both are inside
-        a_f, b_f = fm[:, dj:, di:], f0[:, : ny - dj, : nx - di]
-        a_p, b_p = pm[:, dj:, di:], p0[:, : ny - dj, : nx - di]
+        # tower moved by (dj, di) - also to a cell outside the source domain, inside the padded one:
+        # fm[j, i] = f0[j - dj, i - di] where both are inside the window
+        js = np.arange(max(0, dj), min(ny, ny + dj))
+        is_ = np.arange(max(0, di), min(nx, nx + di))
+        if len(js) == 0 or len(is_) == 0:
+            continue                # the two windows share no cell
+        a_f, b_f = fm[:, js][:, :, is_], f0[:, js - dj][:, :, is_ - di]
+        a_p, b_p = pm[:, js][:, :, is_], p0[:, js - dj][:, :, is_ - di]
         if not (_cmp(chk, rs, c, "translate_tower_halo", "flux", a_f, b_f, prec, "tower moved by (%d,%d) cells with halo %s (cells inside the window)" % (dj, di, kw["halo"]), **extra)
                 and _cmp(chk, rs, c, "translate_tower_halo", "conc", a_p, b_p, prec, "tower moved by (%d,%d) cells with halo %s" % (dj, di, kw["halo"]), **extra)):
             return
+        if not (0 <= dj < ny and 0 <= di < nx):
+            continue                # no source cell under a tower outside the domain
         unit = np.zeros((ny, nx))
         unit[dj, di] = 1.0
         try:
@@ -742,7 +749,18 @@ def replay_shape(chk, rs, c, variants):
                     if d_in > TOL[prec] * sc or d_out > TOL[prec] * sc:
                         _viol(chk, rs, c, "low_pass", "%s with modes (%d,%d): components inside the cut-off changed by %.3e, components beyond it have %.3e (relative)" % (name, nlx, nly, d_in / sc, d_out / sc), **extra)
                         return
-            elif c["mx"] > g["nxe"] and c["my"] > g["nye"] and g["nxe"] % 2 == 0 and g["nye"] % 2 == 0:
+            if g["clamped"] and not c["fp"] and c["xm"] == 0 and c["ym"] == 0:
+                # every mode of the padded grid is retained (whatever its parity): nothing may be removed - at the surface
+                # node the flux field IS the prescribed source, cell by cell (what "leaves every component unchanged" means
+                # where the full solution is known exactly); an odd padded size cannot be requested exactly, so this is the
+                # only place where the odd clamp is observable
+                _, p0s, f0s = rs.solve3(q, kw, levels=[0])
+                scq = max(float(np.max(np.abs(q))), 1e-300)
+                if np.shape(f0s[0]) != np.shape(q) or float(np.max(np.abs(f0s[0] - q))) > TOL[prec] * scq:
+                    _viol(chk, rs, c, "clamp_all_modes", "modes %s are clamped to the padded grid (%d,%d) - all modes retained - but the flux at the surface node differs from the prescribed source by %.3e relative: a retained component was removed or moved"
+                          % (kw["modes"], g["nxe"], g["nye"], float(np.max(np.abs(f0s[0] - q))) / scq if np.shape(f0s[0]) == np.shape(q) else float("nan")), **extra)
+                    return
+            if g["clamped"] and c["mx"] > g["nxe"] and c["my"] > g["nye"] and g["nxe"] % 2 == 0 and g["nye"] % 2 == 0:
                 _, pe, fe = rs.solve3(q, kw, modes=(g["nxe"], g["nye"]))
                 if not (_cmp(chk, rs, c, "clamp_eq", "flux", f, fe, prec, "modes %s vs exactly the padded size (%d,%d)" % (kw["modes"], g["nxe"], g["nye"]), exact=True, **extra)
                         and _cmp(chk, rs, c, "clamp_eq", "conc", p, pe, prec, "modes above the padded size vs exactly the padded size", exact=True, **extra)):
